@@ -1582,3 +1582,55 @@ impl PartialEq<String> for Compact {
         self.is(o)
     }
 }
+
+/// Visit every expression of a block together with the stack of branch conditions it sits under
+/// (`if C` then-branch: "C"; else-branch: "!C"; a match arm: "PAT@SCRUTINEE"; an expression inside a condition
+/// sees the conditions of the enclosing branches only).
+pub fn for_each_expr_with_conds<'a>(b: &'a syn::Block, f: &mut dyn FnMut(&'a syn::Expr, &[String])) {
+    struct W<'a, 'f> {
+        conds: Vec<String>,
+        f: &'f mut dyn FnMut(&'a syn::Expr, &[String]),
+    }
+    impl<'a, 'f> Visit<'a> for W<'a, 'f> {
+        fn visit_expr(&mut self, e: &'a syn::Expr) {
+            (self.f)(e, &self.conds);
+            match e {
+                syn::Expr::If(i) => {
+                    self.visit_expr(&i.cond);
+                    let c = tsc(&i.cond);
+                    self.conds.push(c.clone());
+                    self.visit_block(&i.then_branch);
+                    self.conds.pop();
+                    if let Some((_, el)) = &i.else_branch {
+                        self.conds.push(format!("!{}", c));
+                        self.visit_expr(el);
+                        self.conds.pop();
+                    }
+                }
+                syn::Expr::Match(m) => {
+                    self.visit_expr(&m.expr);
+                    let s = tsc(&m.expr);
+                    for a in &m.arms {
+                        self.conds.push(format!("{}@{}", tsc(&a.pat), s));
+                        if let Some((_, g)) = &a.guard {
+                            self.visit_expr(g);
+                        }
+                        self.visit_expr(&a.body);
+                        self.conds.pop();
+                    }
+                }
+                _ => syn::visit::visit_expr(self, e),
+            }
+        }
+    }
+    W { conds: vec![], f }.visit_block(b);
+}
+
+/// Every identifier token of an expression (paths, field names, method names, macro arguments).
+pub fn all_ident_tokens<T: ToTokens>(t: &T) -> Vec<String> {
+    let mut v = vec![];
+    for tt in t.to_token_stream() {
+        collect_tt_idents(tt, &mut v);
+    }
+    v
+}
